@@ -21,7 +21,7 @@ KNOWN_SWITCHES = ("F9", "F9b")
 RULE = (
     "random programs of 1-5 components drawn from {fail(), fail_all(), c->fail(), c->fail_all(), not(c)->fail(), fail.onmatch(), fail_and_stop(c), c->fail_and_stop(), "
     "skip(c2)/stop(c2) before a fail form, @v = valid(), failed() -> push, push, an error-provoking vote gt(add(#3,1),0)} x random flag files x "
-    "all 16 subsets of {collect, stop, fail, print}; plus groups of 1-4 such members run through the six CsvPaths methods, where "
+    "all 16 subsets of {collect, stop, fail, print}; plus groups of 1-4 such members (12% switched off by run-mode, 15% an early finisher next to a fail_all() judge, a fifth with a member that cannot be built under a non-raising CsvPaths-level policy, 4% on an empty file) run through the six CsvPaths methods, where "
     "results_manager.is_valid, the run manifest's all_valid and the member manifests' valid are compared with the members' verdicts. "
     "Non-trivial: some line executes a fail form or handles an error; distinct = distinct (program skeleton, flag vectors, policy)."
 )
